@@ -321,35 +321,63 @@ func boolReturn(want bool) func(*ssa.Return) bool {
 // immediateErrEdge: the matched edge leads *directly* (through blocks with a
 // single successor) to a bad return: the canonical "if bad { return err }".
 func edgeLeadsStraightTo(from *ssa.BasicBlock, si int, isBad func(*ssa.Return) bool) bool {
-	// boolean φs met on the way are resolved to the operand selected by the
-	// path walked, so "x := a || b; if x { return err }" is straight for a's edge
-	env := map[*ssa.Phi]ssa.Value{}
-	b := from.Succs[si]
-	idx := predIndex(b, from, si)
-	for i := 0; i < 12; i++ {
-		for _, ins := range b.Instrs {
+	// Every way on from the edge ends in a rejecting return: branches taken on
+	// the way (building the error message, counting) are followed on both sides;
+	// boolean φs and nil tests of φs are resolved to the operand selected by the
+	// path walked, so "x := a || b; if x { return err }" holds for a's edge and
+	// "r = errors.New(..); goto done; done: if r != nil { return r }" for the helper form.
+	type frame struct {
+		b   *ssa.BasicBlock
+		idx int
+		env map[*ssa.Phi]ssa.Value
+	}
+	nRet, budget := 0, 200
+	onPath := map[*ssa.BasicBlock]int{}
+	var walk func(f frame) bool
+	walk = func(f frame) bool {
+		budget--
+		if budget < 0 || onPath[f.b] > 1 {
+			return false // too branchy, or looping: not a plain rejection
+		}
+		onPath[f.b]++
+		defer func() { onPath[f.b]-- }()
+		env := f.env
+		for _, ins := range f.b.Instrs {
 			phi, ok := ins.(*ssa.Phi)
 			if !ok {
 				break
 			}
-			if idx >= 0 && idx < len(phi.Edges) {
-				v := phi.Edges[idx]
+			if f.idx >= 0 && f.idx < len(phi.Edges) {
+				v := phi.Edges[f.idx]
 				if q, isPhi := v.(*ssa.Phi); isPhi {
 					if r, known := env[q]; known {
 						v = r
 					}
 				}
-				env[phi] = v
+				ne := make(map[*ssa.Phi]ssa.Value, len(env)+1)
+				for k, x := range env {
+					ne[k] = x
+				}
+				ne[phi] = v
+				env = ne
 			}
 		}
-		if r, ok := b.Instrs[len(b.Instrs)-1].(*ssa.Return); ok {
+		last := f.b.Instrs[len(f.b.Instrs)-1]
+		if r, ok := last.(*ssa.Return); ok {
+			nRet++
 			return isBad(r)
 		}
-		next := 0
-		switch len(b.Succs) {
+		if _, isPanic := last.(*ssa.Panic); isPanic {
+			return true
+		}
+		next := func(k int) bool {
+			return walk(frame{f.b.Succs[k], predIndex(f.b.Succs[k], f.b, k), env})
+		}
+		switch len(f.b.Succs) {
 		case 1:
+			return next(0)
 		case 2:
-			iff, ok := b.Instrs[len(b.Instrs)-1].(*ssa.If)
+			iff, ok := last.(*ssa.If)
 			if !ok {
 				return false
 			}
@@ -360,7 +388,6 @@ func edgeLeadsStraightTo(from *ssa.BasicBlock, si int, isBad func(*ssa.Return) b
 					truth, decided = constBool(v)
 				}
 			} else if bo, isCmp := cond.(*ssa.BinOp); isCmp && (bo.Op == token.EQL || bo.Op == token.NEQ) {
-				// err := φ(errors.New(..), nil); if err != nil: decided by the operand this path selected
 				var tested ssa.Value
 				if isNilConst(bo.Y) {
 					tested = bo.X
@@ -377,19 +404,19 @@ func edgeLeadsStraightTo(from *ssa.BasicBlock, si int, isBad func(*ssa.Return) b
 					}
 				}
 			}
-			if !decided {
-				return false
+			if decided {
+				if truth == pos {
+					return next(0)
+				}
+				return next(1)
 			}
-			if truth != pos {
-				next = 1
-			}
-		default:
-			return false
+			return next(0) && next(1)
 		}
-		idx = predIndex(b.Succs[next], b, next)
-		b = b.Succs[next]
+		return false
 	}
-	return false
+	b := from.Succs[si]
+	ok := walk(frame{b, predIndex(b, from, si), map[*ssa.Phi]ssa.Value{}})
+	return ok && nRet > 0
 }
 
 // condLeaves: the non-constant values a boolean condition can be on some path
